@@ -129,7 +129,7 @@ def per_call_answers(ck, roots):
     ck.rule("C19-O5", "no library function keeps a function-local static initialised from its own parameter (one shared answer for every stream / mode / name, fixed by the first caller)")
     # handlers are constructed through QSharedPointer<T>::create (a template the call graph does not enter), so the scope is every
     # function of the library: the rule is a global one
-    ids = [f.id for f in F.fns.values() if f.body is not None and "/src/qtlogger/" in (f.file or "")]
+    ids = [f.id for f in F.fns.values() if f.body is not None and in_lib(f.file)]
     n = 0
     bad = 0
     for i in sorted(ids):
